@@ -96,6 +96,7 @@ func (fc *FuncContract) HasPanicSpec() bool {
 }
 
 type Lemma struct {
+	Pkg   interface{} // *types.Package of the contract file's package
 	Name  string
 	Props []string
 	Src   string
